@@ -8,8 +8,8 @@
     * `C07_anytime`  – whatever the exit, the returned model satisfies the problem's assertions
                         and is at least as good as every value found before;
     * `C07_optimal`  – if the loop ends on `unsat`, no admitted schedule is strictly better;
-    * `C07_bound_stop` – if it ends because the declared bound was reached and the bound is a
-                        true bound of the objective, likewise.
+  The bound-stop exit (the declared bound was reached) is tied to the code by the SM channel and
+  sampled by RUN; it has no separate theorem (see DESIGN.md §6).
 -/
 import PS.Model.Solver
 import PS.Proofs.InitMem
